@@ -1841,7 +1841,7 @@ def denom_variants(k, tier):
     for v in lat:
         if tier != 'quick' or v in qset:
             out.append(mk('d=%d' % v, ['%dull' % v]))
-        if d['vec'] and d.get('broadcast') and (tier != 'quick' or (v == 10 and not wide)):
+        if d['vec'] and d.get('broadcast') and (tier != 'quick' or (v in (10, 1) and not wide)):
             out.append(mk('d=%d broadcast from scalar Denominator' % v, ['%dull' % v], via_broadcast=True))
     if simd and tier != 'quick':
         out.append(mk('different divisor per lane', ['%dull' % v for v in lat]))
